@@ -131,7 +131,10 @@ def run_shard(spec, rec):
 
 
 STYLE_TEMPLATES = [("Roe; id. at 5", "<i>Roe; id.</i> at 5"), ("See Roe, 1 U.S. 1", "See <em>Roe</em>, 1 U.S. 1"),
-                   ("ab cd ef", "a<b>b c</b>d <i>ef</i>"), ("Id. at 3; id. at 5", "<i>Id. at 3; id.</i> at 5")]
+                   ("ab cd ef", "a<b>b c</b>d <i>ef</i>"), ("Id. at 3; id. at 5", "<i>Id. at 3; id.</i> at 5"),
+                   # nested style tags of different kinds, in both nesting orders
+                   ("410 U.S. 113", "<i><b>410 U.S.</b></i> 113"), ("410 U.S. 113", "<b><em>410</em> U.S.</b> 113"),
+                   ("See Roe at 5", "<em><i>See</i> Roe</em> at <b><i>5</i></b>")]
 
 
 def style_repair_exhaustive(spec, rec):
